@@ -127,7 +127,7 @@ def run(ck):
                      {"target": kind, "outcomes": list(s), "trace": t, "rejected_at": l})
     # binding self-test
     muts = []
-    for t in traces:
+    for t in [t for i, t in enumerate(traces) if i not in res.bad]:
         if any(e["ev"] == "lost" for e in t) and len(muts) < 60:
             muts.append([e for e in t if e["ev"] != "lost"])
             b = [dict(e) for e in t]
